@@ -18,5 +18,38 @@ CHECKS = {
     ),
 }
 
+def _sem(text, ref, technique=None, note=SEM_NOTE, category="model_checking"):
+    return dict(category=category, text=text, design_ref=ref, note=note,
+                technique=technique or "TLA+ spec (Semantics.tla) evaluated by TLC as reference on recorded implementation runs")
+
+CHECKS.update({
+    "C02": _sem("Programs with predicate-level negative loops (plus propositional family) are classified by TLC from "
+                "spec/Semantics.tla into must-answer (no cycle through negation in the full ground dependency graph), "
+                "must-reject (a query/evidence atom undefined in the well-founded model of every positive-weight world) "
+                "and either; the real system's accept/reject decision and, for must-answer programs, its numbers are "
+                "judged against that class.", "DESIGN.md §5 C02"),
+    "C03": _sem("Every batch of sibling 'e' messages pushed by the default engine is permuted (seeded) through the "
+                "documented init_message_stack extension point; each permuted run is judged by Semantics.tla and "
+                "compared with the unpermuted run (same answers, instances, error class).", "DESIGN.md §5 C03",
+                technique="schedule permutation of the real engine's message stack + TLA+ Semantics oracle (TLC)"),
+    "C04": _sem("Unbuffered depth-first, rc_first and the documented random-order engine are run on every generated "
+                "program, judged by Semantics.tla and compared with the default engine.", "DESIGN.md §5 C04",
+                technique="engine-mode matrix on the real engine + TLA+ Semantics oracle (TLC)"),
+    "C05": _sem("Every available exact evaluatable (here: d-DNNF via dsharp; SDD family needs PySDD which is absent) x "
+                "{probability, log-probability, user-defined, NSP variant, symbolic} semiring is judged against the "
+                "exact rational computed by TLC, and cells are compared with the default.", "DESIGN.md §5 C05",
+                note=SEM_NOTE + " SDD/BDD back ends cannot run here (PySDD not installed): not decided."),
+    "C06": _sem("Option vectors over propagate_evidence, propagate_weights, label_all, avoid_name_clash, keep_order, "
+                "keep_all, keep_duplicates, hide_builtins, log/normal space and the evidence spellings; each run is "
+                "judged by Semantics.tla and compared with the default run.", "DESIGN.md §5 C06"),
+    "C07": _sem("Seeded permutations of statements, clauses and body literals (negated literals kept after their "
+                "binders); Layer A is order-free, so one TLC judgement serves all permutations; each permuted text is "
+                "run and judged.", "DESIGN.md §5 C07"),
+    "C08": _sem("Histories of engine.ground/engine.query calls on one shared target formula and one prepared ClauseDB "
+                "(all orders of queries and evidence up to a cap, with interleaved throw-away queries), and fresh "
+                "single-query groundings, judged by Semantics.tla and compared with the default pipeline.",
+                "DESIGN.md §5 C08", technique="API-call histories replayed on the real engine + TLA+ Semantics oracle (TLC)"),
+})
+
 NOT_YET = "check not built yet in this round (planned in DESIGN.md §5); not claimed"
 NOT_APPLICABLE = {}
